@@ -97,4 +97,35 @@ theorem terminal_conservation {c : Cfg} {cd : Codec α σ} {input : List α} {s 
 example : finished wCfg wFinal = true ∧ Reach wCfg wCodec wInput wFinal :=
   ⟨wFinal_facts.2.1, wFinal_reach⟩
 
+/-- **progress** (`_partial`).  Proved for all `n`, inputs and schedules:
+    a worker that holds the mutex at the head of the worker loop ALWAYS has an
+    enabled step — the stored `next_task` is runnable because its generated
+    guard implies the preconditions of the task body (non-empty queue, a work
+    unit / output slot to take: no `dequeue` on an empty queue, no counter
+    underflow), or it waits / exits; and a `sched_unlock` never blocks.
+    Since a ready worker can take the free mutex and a worker inside a task
+    needs at most the mutex, every state with a non-waiting, non-exited worker
+    has an enabled transition.
+    MISSING for the full statement (`every reachable non-final state has an
+    enabled transition and a measure decreases`): (1) the case where every
+    live worker is in `xwait` — needs the no-lost-wake-up invariant plus the
+    reserve argument (`out_slots + #{slot holders at or before `order`} ≥
+    min(TRANSM_THRESH, total_out)`, a unit is available to the minimal
+    `coll_q` entry); (2) the decreasing measure.  Both are covered only by
+    exhaustive exploration of the executable model with the generated guards
+    (`schedc-bfs`: `stuck = 0` and every maximal path ends in the final state,
+    n ≤ 3, all shapes tried). -/
+theorem progress_partial {c : Cfg} {cd : Codec α σ} {input : List α} {s : State α σ}
+    (h : Reach c cd input s) (i : Nat) (hi : s.ws[i]? = some .atHead) :
+    ∃ k s', step c cd s (.run i k) = some s' := by
+  obtain ⟨k, s', hk⟩ := head_enabled (inv1_reach h).sel i
+  exact ⟨k, s', by simp only [step, hi]; exact hk⟩
+
+/-- `sched_unlock()` always succeeds (some waiter can be chosen for the signal) -/
+theorem unlock_never_blocks (c : Cfg) (s : State α σ) : ∃ k s', unlock c s k = some s' :=
+  unlock_some c s
+
+example : ∃ s : State Nat (List Nat), Reach wCfg wCodec wInput s ∧ s.ws[0]? = some .atHead :=
+  ⟨_, reach_of_run [.rTake, .rDeliver 0, .acquire 0] .init rfl, by decide⟩
+
 end LbzVerif.Props.C11.Compress
